@@ -6,6 +6,7 @@ package simio
 
 import (
 	"bufio"
+	"context"
 	"errors"
 	"fmt"
 	"io"
@@ -26,10 +27,10 @@ func (timeoutErr) Temporary() bool { return true }
 func (timeoutErr) Is(t error) bool { return t == os.ErrDeadlineExceeded }
 
 // ReadFaultKinds lists the errors a source can fail with (all "other than end-of-file").
-var ReadFaultKinds = []string{"sim", "connreset", "timeout", "closedpipe", "unexpectedeof"}
+var ReadFaultKinds = []string{"sim", "connreset", "timeout", "closedpipe", "unexpectedeof", "eintr", "eagain", "ctxcanceled", "noprogress"}
 
 // WriteFaultKinds lists the errors a sink can fail with.
-var WriteFaultKinds = []string{"enospc", "epipe", "sim"}
+var WriteFaultKinds = []string{"enospc", "epipe", "sim", "eagain"}
 
 // ErrOf maps a fault kind name to the error value that is injected.
 func ErrOf(kind string) error {
@@ -44,6 +45,14 @@ func ErrOf(kind string) error {
 		return io.ErrClosedPipe
 	case "unexpectedeof":
 		return io.ErrUnexpectedEOF
+	case "eintr":
+		return syscall.EINTR
+	case "eagain":
+		return syscall.EAGAIN
+	case "ctxcanceled":
+		return context.Canceled
+	case "noprogress":
+		return io.ErrNoProgress
 	case "enospc":
 		return syscall.ENOSPC
 	case "epipe":
@@ -267,7 +276,7 @@ func (p plainReader) Read(b []byte) (int, error) { return p.r.Read(b) }
 
 type seekReader struct{ r *Reader }
 
-func (p seekReader) Read(b []byte) (int, error)                  { return p.r.Read(b) }
+func (p seekReader) Read(b []byte) (int, error)                { return p.r.Read(b) }
 func (p seekReader) Seek(off int64, whence int) (int64, error) { return p.r.seek(off, whence) }
 
 // Wrap presents the source to the library the way the plan's Medium says:
